@@ -15,8 +15,9 @@ instance differs from numpy only by library-kernel rounding.
 
 External kernels enter as parameters with a specification (DESIGN.md §3.3):
 * `solve` — `la.solve` / `lu_factor`+`lu_solve`: any function returning a solution of a
-  non-singular system; the driver uses `gaussSolve` below (not proved about; its residual is
-  measured by the correspondence check);
+  non-singular system; the driver uses `gaussList` of `Model/FreqGauss.lean`, which is proved to be
+  such a function (`Props/C02b.lean`); its floating-point residual is measured by the
+  correspondence check;
 * `lam, ur_d, ur_inv_v` — `eigss`/`addconj` output, taken from the implementation's `pc`;
   the eigen-decomposition relations are hypotheses of `frfCoupled_solves` and their residuals
   are measured on every run;
@@ -52,6 +53,9 @@ structure Dva (α : Type) where
   v : α
   a : α
 deriving Inhabited
+
+/-- `np.zeros` entry of `d, v, a` (`_alloc_dva`) -/
+def zeroDva {α : Type} [Zero α] : Dva α := ⟨0, 0, 0⟩
 
 /-- partition class of an equation -/
 inductive Cls | rb | el | rf
@@ -146,8 +150,8 @@ end psd
 
 /-! ## executable composition (driver instance)
 
-`Cx`, Gaussian elimination and the partition bookkeeping of the constructors.  The composition
-is tied to the source by the correspondence check; the theorems concern the formulas above. -/
+`Cx`, the matrix helpers and the problem record.  The composition itself (partition bookkeeping,
+constructor state, gather / scatter, `solvepsd`) is in `Model/FreqSolve.lean`. -/
 
 structure Cx where
   re : Float
@@ -221,39 +225,6 @@ abbrev Mat (α : Type) := Array (Array α)
 
 def Mat.get (A : Mat α) (r c : Nat) : α := (A[r]!)[c]!
 
-/-- Gaussian elimination with partial pivoting: the executable stand-in for LAPACK `gesv`. -/
-def gaussSolve (absLt : α → α → Bool) (n : Nat) (A0 : Mat α) (b0 : Array α) : Array α := Id.run do
-  let mut A := A0
-  let mut b := b0
-  for c in [0:n] do
-    let mut p := c
-    for r in [c+1:n] do
-      if absLt (A.get p c) (A.get r c) then p := r
-    if p != c then
-      let t := A[c]!
-      A := A.set! c A[p]!
-      A := A.set! p t
-      let tb := b[c]!
-      b := b.set! c b[p]!
-      b := b.set! p tb
-    let piv := A.get c c
-    let rowc := A[c]!
-    for r in [c+1:n] do
-      let fct := A.get r c / piv
-      let mut row := A[r]!
-      for j in [c:n] do
-        row := row.set! j (row[j]! - fct * rowc[j]!)
-      A := A.set! r row
-      b := b.set! r (b[r]! - fct * b[c]!)
-  let mut x : Array α := Array.replicate n 0
-  for cc in [0:n] do
-    let c := n - 1 - cc
-    let mut s := b[c]!
-    for j in [c+1:n] do
-      s := s - A.get c j * x[j]!
-    x := x.set! c (s / A.get c c)
-  return x
-
 /-- the non-polymorphic operations the bookkeeping needs -/
 structure Ops (α : Type) where
   i : α
@@ -309,23 +280,6 @@ def Case.nonrf (c : Case α) : Array Nat := (Array.range c.n).filter fun j => !c
 def Case.unc (ops : Ops α) (c : Case α) : Bool :=
   isDiag ops c.n c.M && isDiag ops c.n c.B && isDiag ops c.n c.K
 
-/-- `_make_rb_el`: user partition, or detection with `tol = 0.005` on the non-rf part. -/
-def Case.classify (ops : Ops α) (c : Case α) : Array Cls :=
-  let nonrf := c.nonrf
-  let unc := c.unc ops
-  let small (x : α) : Bool := ops.mag x < 0.005
-  let isRb (j : Nat) : Bool :=
-    match c.rb with
-    | some rb => rb.contains j
-    | none =>
-      if unc then small (c.K.get j j)
-      else nonrf.all fun r =>
-        small (c.K.get r j) && small (c.K.get j r) && small (c.B.get r j) && small (c.B.get j r)
-  (Array.range c.n).map fun j => if c.rf.contains j then .rf else if isRb j then .rb else .el
-
-def idxOf (cls : Array Cls) (k : Cls) : Array Nat :=
-  (Array.range cls.size).filter fun j => cls[j]! == k
-
 /-- `phi.T @ F` -/
 def matTMul (n nf : Nat) (P F : Mat α) : Mat α :=
   (Array.range n).map fun r => (Array.range nf).map fun j =>
@@ -348,140 +302,6 @@ def backTransform (n nf : Nat) (phi : Option (Mat α)) (s : Sol α) : Sol α :=
   | none => s
   | some P => solOfComps n nf (matMul n nf P (s.comp (·.d))) (matMul n nf P (s.comp (·.v)))
       (matMul n nf P (s.comp (·.a)))
-
-def setRows (s : Sol α) (rows : Array Nat) (vals : Nat → Nat → Dva α) (nf : Nat) : Sol α := Id.run do
-  let mut out := s
-  for q in [0:rows.size] do
-    out := out.set! rows[q]! ((Array.range nf).map fun j => vals q j)
-  return out
-
-def zeroDva : Dva α := ⟨0, 0, 0⟩
-
-/-- column `j` of the rows `rows` of `F` -/
-def colOf (F : Mat α) (rows : Array Nat) (j : Nat) : Array α := rows.map fun r => F.get r j
-
-/-- `SolveUnc(m, b, k, rb=, rf=, pre_eig=).fsolve(F, freq, incrb, rf_disp_only)` -/
-def fsolveSU (ops : Ops α) (absLt : α → α → Bool) (c : Case α) : Except String (Sol α) := do
-  let n := c.n
-  let nf := c.freq.size
-  let cls := c.classify ops
-  let rb := idxOf cls .rb
-  let el := idxOf cls .el
-  let rf := idxOf cls .rf
-  let nonrf := c.nonrf
-  let unc := c.unc ops
-  -- constructor: `get_su_eig` path (coupled or complex) decomposes the rigid-body mass with
-  -- `_inv_mrb`, which indexes the non-rf mass with full-size indices
-  let eigPath := !unc || c.cplx
-  let mrbIdx : Array Nat :=
-    if eigPath && !c.mNone && rb.size > 0 then (imrbPick nonrf.toList rb.toList).toArray else rb
-  if c.F.size != n then throw "value-error"
-  if c.F.any fun row => row.size != nf then throw "value-error"
-  let F := match c.phi with
-    | some P => matTMul n nf P c.F
-    | none => c.F
-  let w : Array α := c.freq.map fun f => ops.twoPi * f
-  if unc then
-    let s : Sol α := (Array.range n).map fun r => (Array.range nf).map fun j =>
-      let mr := match rb.idxOf? r with
-        | some q => mrbIdx[q]!
-        | none => r
-      rowUnc ops.isZero ops.i cls[r]! c.inc c.dispOnly (c.M.get mr mr) (c.B.get r r) (c.K.get r r)
-        (F.get r j) w[j]!
-    return backTransform n nf c.phi s
-  else
-    let mut s : Sol α := (Array.range n).map fun _ => (Array.range nf).map fun _ => zeroDva
-    -- residual flexibility: static solution with the rf block of the stiffness
-    if rf.size > 0 then
-      let Krf := c.K.sub rf rf
-      let drf : Array (Array α) := (Array.range nf).map fun j => gaussSolve absLt rf.size Krf (colOf F rf j)
-      s := setRows s rf (fun q j => rfFreq ops.i ((drf[j]!)[q]!) w[j]! c.dispOnly) nf
-    -- rigid body: a = mrb⁻¹ f
-    if rb.size > 0 then
-      let Mrb := c.M.sub mrbIdx mrbIdx
-      let arb : Array (Array α) := (Array.range nf).map fun j => gaussSolve absLt rb.size Mrb (colOf F rb j)
-      s := setRows s rb (fun q j => frfRb ops.isZero ops.i ((arb[j]!)[q]!) w[j]! c.inc) nf
-    -- elastic: complex modes of the elastic block
-    if el.size > 0 then
-      match c.eig with
-      | none => throw "missing-eig"
-      | some (lam, urd, urinvv) =>
-        let ks := el.size
-        let ns := lam.size
-        let Mel := c.M.sub el el
-        let dd : Array (Array α) := (Array.range nf).map fun j =>
-          let imf := gaussSolve absLt ks Mel (colOf F el j)
-          let dfn := frfCoupled (n := ks) (s := ns) ops.i w[j]! (fnOfVec lam) (fnOfMat urd)
-            (fnOfMat urinvv) (fnOfVec imf)
-          Array.ofFn dfn
-        s := setRows s el (fun q j =>
-          let d := (dd[j]!)[q]!
-          ⟨d, d * (ops.i * w[j]!), d * -(w[j]! * w[j]!)⟩) nf
-    return backTransform n nf c.phi s
-
-/-- `FreqDirect(m, b, k, rb=, rf=).fsolve(F, freq, incrb, rf_disp_only)` -/
-def fsolveFD (ops : Ops α) (absLt : α → α → Bool) (c : Case α) : Except String (Sol α) := do
-  let n := c.n
-  let nf := c.freq.size
-  if c.F.size != n then throw "value-error"
-  let nonrf := c.nonrf
-  if nonrf.size > 0 && c.F.any (fun row => row.size != nf) then throw "value-error"
-  let F := c.F
-  let w : Array α := c.freq.map fun f => ops.twoPi * f
-  let cls := c.classify ops
-  if c.unc ops then
-    return (Array.range n).map fun r => (Array.range nf).map fun j =>
-      rowDirect ops.i cls[r]! c.inc c.dispOnly (c.M.get r r) (c.B.get r r) (c.K.get r r)
-        (F.get r j) w[j]!
-  else
-    let rb := idxOf cls .rb
-    let rf := idxOf cls .rf
-    let mut s : Sol α := (Array.range n).map fun _ => (Array.range nf).map fun _ => zeroDva
-    if rf.size > 0 then
-      let Krf := c.K.sub rf rf
-      let drf : Array (Array α) := (Array.range nf).map fun j => gaussSolve absLt rf.size Krf (colOf F rf j)
-      s := setRows s rf (fun q j => rfFreq ops.i ((drf[j]!)[q]!) w[j]! c.dispOnly) nf
-    let ks := nonrf.size
-    if ks > 0 then
-      let Mk := c.M.sub nonrf nonrf
-      let Bk := c.B.sub nonrf nonrf
-      let Kk := c.K.sub nonrf nonrf
-      let dd : Array (Array α) := (Array.range nf).map fun j =>
-        let solve : (Fin ks → Fin ks → α) → (Fin ks → α) → Fin ks → α := fun H f =>
-          fnOfVec (gaussSolve absLt ks (Array.ofFn fun r => Array.ofFn fun cc => H r cc) (Array.ofFn f))
-        Array.ofFn (freqDirect solve ops.i w[j]! (fnOfMat Mk) (fnOfMat Bk) (fnOfMat Kk)
-          (fnOfVec (colOf F nonrf j)))
-      s := setRows s nonrf (fun q j =>
-        let d := (dd[j]!)[q]!
-        ⟨d, (ops.i * w[j]!) * d, -(w[j]! * w[j]!) * d⟩) nf
-      -- `if "d" not in incrb: d[self.rb] = 0` …
-      s := setRows s rb (fun q j => applyIncrb c.inc ((s[rb[q]!]!)[j]!)) nf
-    return s
-
-/-- `solvepsd(fs, forcepsd, t_frc, freq, [[drma, drmv, drmd, drmf]])` with `rbduf = elduf = 1`:
-returns the response PSD (rows × freq) and the RMS per row. -/
-def solvePsdCase (normSq : α → Float) (solver : Case α → Except String (Sol α)) (c : Case α)
-    (freqR : Array Float) (p : Nat) (tfrc : Mat α) (fpsd : Array (Array Float)) (q : Nat)
-    (ra rv rd rff : Option (Mat α)) : Except String (Array (Array Float) × Array Float) := do
-  let n := c.n
-  let nf := freqR.size
-  let mut sols : Array (Sol α) := #[]
-  for i in [0:p] do
-    -- `genforce = t_frc[:, i:i+1] @ unitforce`
-    let F : Mat α := (Array.range n).map fun r => (Array.range nf).map fun _ => tfrc.get r i * 1
-    sols := sols.push (← solver { c with F := F })
-  let row (m : Option (Mat α)) (r : Nat) : Fin n → α := match m with
-    | some A => fun cc => A.get r cc.val
-    | none => fun _ => 0
-  let psd : Array (Array Float) := (Array.range q).map fun r => (Array.range nf).map fun j =>
-    respPsd (p := p) (fun i => (fpsd[i.val]!)[j]!) fun i =>
-      let s := sols[i.val]!
-      normSq (frfRec (row ra r) (row rv r) (row rd r)
-        (match rff with | some A => A.get r i.val * 1 | none => 0)
-        (fun cc => ((s[cc.val]!)[j]!).d) (fun cc => ((s[cc.val]!)[j]!).v)
-        (fun cc => ((s[cc.val]!)[j]!).a))
-  let rms : Array Float := psd.map fun y => Float.sqrt (trapz2 freqR.toList y.toList / 2)
-  return (psd, rms)
 
 end exec
 
